@@ -42,6 +42,9 @@
 (***************************************************************************)
 EXTENDS Naturals, Sequences, FiniteSets
 
+(* code variant: does visit_Call in a nested scope look INTO the arguments of the nested call at once (repaired) or only at the end *)
+NestedArgsExposed == TRUE
+
 StarSrc == {"own", "none", "other", "two"}
 FwdCtx  == {"top", "dead", "nested_now", "nested_after", "nested_never", "lambda_now"}
 NestedCtx == {"nested_now", "nested_after", "nested_never"}
@@ -56,8 +59,11 @@ HowTop(tgt)    == IF tgt = "A" THEN {"rebind", "aug", "fortarget", "withas", "wa
 HowNested(tgt) == IF tgt = "A" THEN {"nonlocal", "handover", "method_ro"}
                   ELSE {"nonlocal", "handover", "contains", "item_set", "item_del", "method", "method_ro"}
 
-S(k, ctx, sa, sk, tgt, how) == [k |-> k, ctx |-> ctx, sa |-> sa, sk |-> sk, tgt |-> tgt, how |-> how]
-FwdStmts   == {S("fwd", c, a, b, "-", "-") : c \in FwdCtx, a \in StarSrc, b \in StarSrc}
+S(k, ctx, sa, sk, tgt, how) == [k |-> k, ctx |-> ctx, sa |-> sa, sk |-> sk, tgt |-> tgt, how |-> how, arg |-> "-"]
+(* a forwarding call may carry, as its FIRST positional argument, an expression that itself touches **kwargs: arguments are       *)
+(* evaluated (and walked) before the star arguments are expanded (resolved)                                                        *)
+ArgForms == {"-", "popK", "handK"}          \* w(kwargs.pop('t', None), ..., **kwargs)  /  w(H(kwargs), ..., **kwargs)
+FwdStmts   == {[S("fwd", c, a, b, "-", "-") EXCEPT !.arg = g] : c \in FwdCtx, a \in StarSrc, b \in StarSrc, g \in ArgForms}
 TaintStmts == {S("taint", c, "-", "-", t, h) : c \in {"top", "dead"}, t \in {"A", "K"}, h \in StoreLike \cup LoadLike \cup Method}
               \cup {S("taint", c, "-", "-", t, h) : c \in NestedCtx, t \in {"A", "K"}, h \in {"nonlocal"} \cup LoadLike \cup Method}
 WellFormed(s) == s.k # "taint" \/ (/\ IF s.ctx \in NestedCtx THEN s.how \in HowNested(s.tgt) ELSE s.how \in HowTop(s.tgt)
@@ -89,14 +95,23 @@ ExecRec(id, st) == [id |-> id, prA |-> st.rtA, prK |-> st.rtK]
 RunTaint(st, s) == [st EXCEPT !.rtA = @ /\ ~(s.tgt = "A" /\ RtChanges("A", s.how)),
                               !.rtK = @ /\ ~(s.tgt = "K" /\ RtChanges("K", s.how))]
 
+(* the argument expression of a forwarding call, walked before its star arguments are resolved; evaluated before the call happens *)
+ArgAnalysis(st, g) == CASE g = "popK" -> [st EXCEPT !.tK = @ \/ (st.mK = "arg")]
+                        [] g = "handK" -> [st EXCEPT !.mK = "unk"]
+                        [] OTHER -> st
+ArgRuntime(st, g) == IF g \in {"popK", "handK"} THEN [st EXCEPT !.rtK = FALSE] ELSE st
+
 (* visiting one statement of the body: analysis effect and ghost effect *)
 Step(st, s, id) ==
   IF s.k = "decoy" THEN st
   ELSE IF s.k = "fwd" THEN
-    IF s.ctx = "top" THEN [st EXCEPT !.calls = Append(@, CallRec(id, s.sa, s.sk, st)), !.execs = Append(@, ExecRec(id, st))]
-    ELSE IF s.ctx = "dead" THEN [st EXCEPT !.calls = Append(@, CallRec(id, s.sa, s.sk, st))]
-    ELSE LET d == [st EXCEPT !.deferred = Append(@, [id |-> id, what |-> "fwd", sa |-> s.sa, sk |-> s.sk, tgt |-> "-"])] IN
-         IF s.ctx \in {"nested_now", "lambda_now"} THEN [d EXCEPT !.execs = Append(@, ExecRec(id, st))]
+    IF s.ctx = "top" THEN LET a == ArgAnalysis(st, s.arg)  r == ArgRuntime(a, s.arg) IN
+                          [r EXCEPT !.calls = Append(@, CallRec(id, s.sa, s.sk, a)), !.execs = Append(@, ExecRec(id, r))]
+    ELSE IF s.ctx = "dead" THEN LET a == ArgAnalysis(st, s.arg) IN [a EXCEPT !.calls = Append(@, CallRec(id, s.sa, s.sk, a))]
+    ELSE (* nested: the call is deferred; expose_nested_Call walks its arguments at once (NestedArgsExposed), otherwise only at the end *)
+         LET a0 == IF NestedArgsExposed THEN ArgAnalysis(st, s.arg) ELSE st
+             d == [a0 EXCEPT !.deferred = Append(@, [id |-> id, what |-> "fwd", sa |-> s.sa, sk |-> s.sk, tgt |-> "-", arg |-> s.arg])] IN
+         IF s.ctx \in {"nested_now", "lambda_now"} THEN LET r == ArgRuntime(d, s.arg) IN [r EXCEPT !.execs = Append(@, ExecRec(id, r))]
          ELSE IF s.ctx = "nested_after" THEN [d EXCEPT !.late = Append(@, [id |-> id, s |-> s])]
          ELSE d
   ELSE (* taint *)
@@ -112,7 +127,7 @@ Step(st, s, id) ==
                ELSE IF s.how \in Method
                     (* visit_Call in a nested scope: taint_instance marks the Arg at once (the nested function may run before *)
                     (* later calls of the body), and the call is deferred like every nested call                             *)
-                    THEN [st EXCEPT !.deferred = Append(@, [id |-> id, what |-> "method", sa |-> "-", sk |-> "-", tgt |-> s.tgt]),
+                    THEN [st EXCEPT !.deferred = Append(@, [id |-> id, what |-> "method", sa |-> "-", sk |-> "-", tgt |-> s.tgt, arg |-> "-"]),
                                     !.tA = @ \/ (s.tgt = "A" /\ st.mA = "arg"), !.tK = @ \/ (s.tgt = "K" /\ st.mK = "arg")]
                (* a read inside the nested scope reaches the namespace that OWNS the name (Namespace.owner): the enclosing *)
                (* function's **kwargs becomes Unknown; its *args is an immutable value, a read leaves it alone             *)
@@ -129,12 +144,12 @@ Revisit(st, ds) ==
   ELSE LET d == Head(ds) IN
        IF d.what = "method"
        THEN Revisit([st EXCEPT !.tA = @ \/ (d.tgt = "A" /\ st.mA = "arg"), !.tK = @ \/ (d.tgt = "K" /\ st.mK = "arg")], Tail(ds))
-       ELSE Revisit([st EXCEPT !.calls = Append(@, CallRec(d.id, d.sa, d.sk, st))], Tail(ds))
+       ELSE LET a == ArgAnalysis(st, d.arg) IN Revisit([a EXCEPT !.calls = Append(@, CallRec(d.id, d.sa, d.sk, a))], Tail(ds))
 RECURSIVE RunLate(_, _)
 RunLate(st, ls) ==
   IF ls = <<>> THEN st
   ELSE LET x == Head(ls) IN
-       IF x.s.k = "fwd" THEN RunLate([st EXCEPT !.execs = Append(@, ExecRec(x.id, st))], Tail(ls))
+       IF x.s.k = "fwd" THEN LET r == ArgRuntime(st, x.s.arg) IN RunLate([r EXCEPT !.execs = Append(@, ExecRec(x.id, r))], Tail(ls))
        ELSE RunLate(RunTaint(st, x.s), Tail(ls))
 Finish(st) == RunLate(Revisit(st, st.deferred), st.late)
 
